@@ -134,6 +134,7 @@ def register(M):
             e = Obj('entry', cell=cell, path=path, key=a[1], idx=i, sym=None)
             return Adt(dty or 'Entry<K, V>', {(0, 0): e, (1, 0): e}, bv(0 if i is not None else 1), None)
         k = M.key_term(ex, a[1], m.ksh)
+        M.retain_facts(ex, k)
         ex.write_path(cell, path, m)
         e = Obj('entry', cell=cell, path=path, key=a[1], idx=None, sym=k)
         return Adt(dty or 'Entry<K, V>', {(0, 0): e, (1, 0): e}, z3.simplify(z3.If(z3.Select(m.present, k), bv(0), bv(1))), None)
@@ -380,6 +381,25 @@ def register(M):
             else:
                 es = list(cur.entries)
                 es[i] = (es[i][0], es[i][1].set(items=es[i][1].items + (it,)))
+                cell.v = cur.set(entries=tuple(es))
+        return cell.v
+
+    @reg('Itertools::into_group_map')
+    def _(ex, info, a, dty):
+        # items are (key, value) pairs: values grouped per key in iteration order
+        items = M.seq_of(ex, a[0])
+        g = generic_args(dty or '')
+        cell = Cell(new_assoc(g[0] if g else '?', g[1] if len(g) > 1 else '?'))
+        for it in items:
+            it = ex.materialize(it)
+            k, v = ex.field_of(it, None, 0, '?'), ex.field_of(it, None, 1, '?')
+            cur = cell.v
+            i = find(ex, cur, k)
+            if i is None:
+                cell.v = cur.set(entries=cur.entries + ((k, Obj('vec', items=(v,), ty='Vec<?>')),))
+            else:
+                es = list(cur.entries)
+                es[i] = (es[i][0], es[i][1].set(items=es[i][1].items + (v,)))
                 cell.v = cur.set(entries=tuple(es))
         return cell.v
 
